@@ -185,6 +185,7 @@ extern "C" int __wrap_pthread_mutex_trylock(pthread_mutex_t* pm) {
     return 0;
 }
 
+static int g_timedTries[MAXT];
 // A timed lock may time out whenever the mutex is held by someone else ("the holder was slow" is always a legal schedule): it does so after the
 // other threads had one more chance to run. A free mutex is taken as by lock().
 extern "C" int __real_pthread_mutex_timedlock(pthread_mutex_t*, const struct timespec*);
@@ -193,8 +194,14 @@ extern "C" int __wrap_pthread_mutex_timedlock(pthread_mutex_t* pm, const struct 
     int me = tlsId;
     if (!S.active || me < 0) return 0;
     schedPoint(true);
-    if (m->owner != -1 && m->owner != me) { schedPoint(true); if (m->owner != -1 && m->owner != me) { probe("timedlock_timed_out"); return ETIMEDOUT; } }
-    simMutexLock(m);
+    if (m->owner != -1 && m->owner != me && g_timedTries[me] == 0) {
+        // the first wait of a thread on a held mutex times out - after the waiting time has passed, i.e. after some other thread has run; a caller that
+        // waits again (a retry loop) then waits for real, so that such a loop ends whatever the schedule
+        g_timedTries[me] = 1;
+        int to = pickOther(me, true); if (to >= 0) handoff(me, to);
+        if (m->owner != -1 && m->owner != me) { probe("timedlock_timed_out"); return ETIMEDOUT; }
+    }
+    simMutexLock(m); g_timedTries[me] = 0;
     return 0;
 }
 
@@ -489,6 +496,7 @@ struct Engine : public vf::Engine {
         S.n = (int)scripts.size() + 1; S.rng.reseed(mix64(d.seed, 4242)); S.preemptNum = 1; S.preemptDen = (unsigned)d.pi("preempt_den", 8); S.biasLock = d.pi("bias_lock") != 0;
         S.nChangePoints = (int)d.pi("few_points"); if (S.nChangePoints > 4) S.nChangePoints = 4; for (int k = 0; k < S.nChangePoints; k++) S.changePoints[k] = 1 + S.rng.below((uint64_t)d.pi("few_span", 4000));
         S.steps = 0; S.budget = 4000000; S.noPreempt = false; S.recorded.clear(); S.replay = d.schedule.empty() ? 0 : &d.schedule; S.replayPos = 0; S.switches = 0; S.order = Hash();
+        memset(g_timedTries, 0, sizeof g_timedTries);
         S.deadlock = S.selfDeadlock = S.unlockByOther = S.budgetExceeded = false; S.refusedGotBlock = false; S.deadlockDetail.clear(); S.races.clear(); S.accesses = 0; S.reports = 0; S.firstReport.clear();
         shadowGen++;
         for (int i = 0; i < MAXT; i++) { sem_destroy(&S.t[i].sem); sem_init(&S.t[i].sem, 0, 0); }      // no stale wake-up can survive from an earlier run
